@@ -406,3 +406,65 @@ def endpoint_tables(prog, chk):
                 ok = q.ret != 0 and now == old and not any(x in old for x in freed)
                 what = "expected an error and the endpoint as it was; source: status %s, now %s, released %s" % (hex(q.ret) if isinstance(q.ret, int) else q.ret, now, freed)
             chk.ob("C13.endpoint", inst, ok, what, loc=fn.loc(), fn=fn, nontrivial=failing is not None)
+
+
+def response_context_rule(prog, chk):
+    """A handle's response context is an untyped pointer: an aggregation / extension response after RESPONSE_RECEIVED, a configuration
+    after PUSH_CONFIG_RECEIVED, nothing before.  Whoever treats it as a response and works with it (hands it to a function that reads
+    the response) does so only behind `state == KSI_ASYNC_STATE_RESPONSE_RECEIVED` - in the function itself or, for a static helper, at
+    every call site.  (Plain getters that only return the pointer are documented as state dependent and not judged.)"""
+    import re
+    from ksirules.flow import g_cmp, must_pass, path_lines
+    from ksirules.model import AnalysisBroken, is_int, lvalue_key, show, strip, walk
+    chk.rule("C13.respctx", "the response context is read as a response only in state RESPONSE_RECEIVED (must-pass, through static helpers)", floor=2)
+    RECV = prog.const("KSI_ASYNC_STATE_RESPONSE_RECEIVED")
+    guard = g_cmp({"==", "!="}, lambda f, x: (lvalue_key(x, f) or "").endswith("->state") or "getState" in show(f.deep(x), f),
+                  lambda f, x: is_int(x) and strip(x)["v"] == RECV, "state == RESPONSE_RECEIVED")
+
+    def sites(fn):
+        """blocks where a value derived from ->respCtx (cast to a response type) is passed to a callee"""
+        typed = set()
+        out = set()
+        for b, i, n in fn.nodes():
+            if n.get("k") == "asg":
+                r = strip(n["r"])
+                src = r
+                while isinstance(src, dict) and src.get("k") == "cast":
+                    src = strip(src["e"])
+                if isinstance(src, dict) and src.get("k") == "mem" and src["f"] == "respCtx" and re.search(r"(AggregationResp|ExtendResp)\s*\*", (strip(n["l"]).get("t") or "")):
+                    typed.add(lvalue_key(n["l"], fn))
+        for b, i, c in fn.calls():
+            for a in c["a"]:
+                if lvalue_key(a, fn) in typed and c.get("fn") and not (c["fn"] or "").endswith("_free"):
+                    out.add(b)
+        return out
+
+    def guarded(fn, blocks, depth=0):
+        if must_pass(fn, blocks, guard) is None:
+            return None
+        callers = prog.callers().get(fn.name, [])
+        if not fn.static if hasattr(fn, "static") else False:
+            pass
+        if not callers or depth > 2:
+            return "no state check before the response context is used"
+        for (g, b, i, c) in callers:
+            if g.unit != fn.unit:
+                continue
+            why = guarded(g, {b}, depth + 1)
+            if why:
+                return "%s calls it without the check" % g.name
+        return None
+    n = 0
+    for fn in sorted(prog.all_functions(), key=lambda f: (f.unit, f.line)):
+        if fn.unit not in ("net_async.c", "net_ha.c"):
+            continue
+        bl = sites(fn)
+        if not bl:
+            continue
+        n += 1
+        why = guarded(fn, bl)
+        chk.ob("C13.respctx", fn.name, why is None, "the response context is worked with as a response%s" % (
+            " only behind state == RESPONSE_RECEIVED" if why is None else ": " + why + " (a configuration handle holds a KSI_Config there: the wrong structure is read)"),
+            loc=fn.loc(), fn=fn)
+    if n < 2:
+        raise AnalysisBroken("C13.respctx: only %d users of the response context recognised" % n)
